@@ -363,8 +363,20 @@ func (s *snappyCodec) decompress(compressed []byte) ([]byte, error) {
 	if len(compressed) < 4 {
 		return nil, fmt.Errorf("snappy block of %d bytes is too short to hold a checksum", len(compressed))
 	}
-	var err error
-	s.buf, err = snappy.Decode(s.buf[:cap(s.buf)], compressed[:len(compressed)-4])
+	body := compressed[:len(compressed)-4]
+	// The block states its own decoded length, and snappy.Decode allocates that
+	// much before looking at the data. Snappy cannot expand its input by more
+	// than a factor of 64/3 (a three byte copy element yields at most 64
+	// bytes), so a block claiming more is corrupt: refuse it rather than let a
+	// few bytes of input demand gigabytes.
+	n, err := snappy.DecodedLen(body)
+	if err != nil {
+		return nil, fmt.Errorf("snappy decode failed: %w", err)
+	}
+	if n > 22*len(body) {
+		return nil, fmt.Errorf("snappy block of %d bytes claims to decode to %d bytes", len(body), n)
+	}
+	s.buf, err = snappy.Decode(s.buf[:cap(s.buf)], body)
 	if err != nil {
 		return nil, fmt.Errorf("snappy decode failed: %w", err)
 	}
